@@ -3,7 +3,7 @@
     one only starts in layer 2), with a block-name mapping. *)
 From Coq Require Import Ascii String List Bool Arith ZArith QArith Qminmax Lia Lqa Permutation.
 From PTBase Require Import Exn PyStr.
-From P Require Import FromGeo Arith Lists NamesAgree Volume ConnGeom ConnNoDup.
+From P Require Import FromGeo Arith Lists NamesAgree Volume ConnGeom ConnNoDup Area.
 Import ListNotations.
 Open Scope Q_scope.
 
@@ -11,9 +11,9 @@ Definition la0 := mkLayer (s2l " 0") 0 0 0.
 Definition la1 := mkLayer (s2l " 1") (-10) (-5) 0.
 Definition la2 := mkLayer (s2l " 2") (-20) (-15) (-10).
 Definition la3 := mkLayer (s2l " 3") (-30) (-25) (-20).
-Definition ca := mkColumn (s2l "  a") 3 1 (1 # 2) (1 # 2) 4.
-Definition cb := mkColumn (s2l "  b") (-4) 1 (3 # 2) (1 # 2) 4.
-Definition cc := mkColumn (s2l "  c") (-12) 2 (3) (1 # 2) 4.
+Definition ca := mkColumn (s2l "  a") 3 1 (1 # 2) (1 # 2) 4 [(0, 0); (1, 0); (1, 1); (0, 1)].
+Definition cb := mkColumn (s2l "  b") (-4) 1 (3 # 2) (1 # 2) 4 [(1, 0); (2, 0); (2, 1); (1, 1)].
+Definition cc := mkColumn (s2l "  c") (-12) 2 (3) (1 # 2) 4 [(2, 0); (4, 0); (4, 1); (2, 1)].
 Definition hab := mkHconn ca cb 1 0 1 1.
 Definition hbc := mkHconn cb cc 2 0 2 1.
 Definition g_ex (atm : nat) : geom :=
@@ -143,3 +143,6 @@ Proof. exact (conj ex_names (conj ex_names_nodup (conj ex_map_used (conj ex_cnam
 
 Example ex_hpairs atm : hpairs_distinct (g_ex atm).
 Proof. apply (nodupb_sound pair_eqb _ pair_eqb_r). vm_compute. reflexivity. Qed.
+
+Example ex_areas atm : areas_from_nodes (g_ex atm).
+Proof. intros c Hc. cbn in Hc. destruct Hc as [<-|[<-|[<-|[]]]]; vm_compute; reflexivity. Qed.
